@@ -561,6 +561,12 @@ pub fn m7() -> InputFam {
                     }
                 }
             }
+            // a tags chunk with 0 / 1 / 3 tags appended to this frame (the library reads tags from the first frame only)
+            for k in [0usize, 1, 3] {
+                let mut f = base.clone();
+                f.frames[fi].push(gen::tags((0..k).map(|i| Tag::new(&format!("late{}", i), 0, 0, i as u8 % 3)).collect()));
+                v.push((format!("{} a tags chunk with {} tags appended to frame {}", bn, k, fi), f.encode()));
+            }
             let mut f = base.clone();
             f.frames.remove(fi);
             v.push((format!("{} drop frame {}", bn, fi), f.encode()));
@@ -573,7 +579,7 @@ pub fn m7() -> InputFam {
             v.push((format!("{} reverse the chunks of frame {}", bn, fi), f.encode()));
         }
     }
-    fam("M7-program", "program-level faults on b1..b4 and D1 (indexed, RGBA), re-encoded with consistent sizes: every chunk deleted / duplicated / swapped with its successor / moved to the end of the next frame / retyped as each of the 13 other known chunk types; every frame dropped / duplicated / its chunks reversed", v)
+    fam("M7-program", "program-level faults on b1..b4 and D1 (indexed, RGBA), re-encoded with consistent sizes: every chunk deleted / duplicated / swapped with its successor / moved to the end of the next frame / retyped as each of the 13 other known chunk types; every frame dropped / duplicated / its chunks reversed / given an extra tags chunk of 0, 1 or 3 tags", v)
 }
 
 
